@@ -27,7 +27,7 @@ STUB = ["neighbour call-back (a fixed adjacency table per run)"]
 ASSUMPTIONS = ["labels of one graph are mutually comparable (all str or all int)", "neighbours lie inside the node set"]
 TIERS = {
     "quick": {"runs": 288000, "block": 6000, "budget_s": 75, "hash_seeds": 16},
-    "thorough": {"runs": 3000000, "block": 5000, "budget_s": 900, "hash_seeds": 64},
+    "thorough": {"runs": 40000000, "block": 10000, "budget_s": 900, "hash_seeds": 64},
 }
 FUNCS = ["articulation_points", "bridges", "kcore_decomposition", "kcore", "pagerank", "louvain"]
 SOLVER_ERRORS = (UnboundLocalError, IndexError, KeyError, TypeError, ValueError, ZeroDivisionError, OverflowError, AttributeError,
